@@ -11,6 +11,8 @@ pub static INSIDE: AtomicU32 = AtomicU32::new(0);
 pub static MAX_INSIDE: AtomicU32 = AtomicU32::new(0);
 /// (thread, position) of every element handed out by `LogIter::next`
 pub static SRC_LOG: Mutex<Vec<(u16, u32)>> = Mutex::new(Vec::new());
+/// long identity inputs: the value index at position p is p itself (not p mod 256), so all elements are distinct
+pub static WIDE: AtomicBool = AtomicBool::new(false);
 
 pub fn reset() {
     SRC_NEXTS.store(0, SeqCst);
@@ -27,7 +29,7 @@ pub fn take_src_log() -> Vec<(u16, u32)> {
 /// Source element at position `p`: `input[p]` is a *value index* (equal indices = duplicate values);
 /// beyond the input (endless sources) the value index is the position itself.
 pub fn src_elem(input: &[u8], p: usize) -> (u64, u8) {
-    let v = if p < input.len() { input[p] as u64 } else { p as u64 };
+    let v = if p < input.len() && !WIDE.load(SeqCst) { input[p] as u64 } else { p as u64 };
     (v + 1, (v & 63) as u8)
 }
 
@@ -62,7 +64,7 @@ impl Iterator for LogIter {
         MAX_INSIDE.fetch_max(n, SeqCst);
         if SRC_POINTS.load(SeqCst) {
             sched::point(OpKind::SrcNext, self.pos as i64, 0);
-        } else {
+        } else if !crate::closures::QUIET.load(SeqCst) {
             sched::note(OpKind::SrcNext, self.pos as i64, 0);
         }
         let n2 = INSIDE.load(SeqCst);
@@ -70,7 +72,9 @@ impl Iterator for LogIter {
         let r = if self.pos < self.input.len() || self.endless {
             let (id, slot) = src_elem(&self.input, self.pos);
             let t = sched::current_thread().map(|x| x as u16).unwrap_or(u16::MAX);
-            SRC_LOG.lock().unwrap_or_else(|e| e.into_inner()).push((t, self.pos as u32));
+            if !crate::closures::QUIET.load(SeqCst) {
+                SRC_LOG.lock().unwrap_or_else(|e| e.into_inner()).push((t, self.pos as u32));
+            }
             SRC_NEXTS.fetch_add(1, SeqCst);
             self.pos += 1;
             Some(Tok::new(id, slot))
